@@ -42,7 +42,25 @@ type C18Case struct {
 
 var c18Kinds = []string{"codec", "encoding-id", "response", "response", "logout-response", "soap", "metadata", "authn-request", "logout-request", "handler-callback", "handler-sso-error", "handler-logout-error", "endpoint-encoding-id"}
 
+// c18Magic: byte sequences that tools sniff for at the start (or strip from the end) of data - byte order marks, container
+// signatures, the first characters of an XML document, white space, padding. To the codec they are bytes like any others.
+var c18MagicPrefix = []string{"\xef\xbb\xbf", "\xef\xbb\xbf<", "\xff\xfe", "\xfe\xff", "<", "<?xml", "<?xml version=\"1.0\"?>", " <", "\n", "\x1f\x8b\x08", "x\x9c", "x\x01", "PK\x03\x04", "\x00", "\x00\x00\xfe\xff", "=", "%"}
+var c18MagicSuffix = []string{"\n", "\r\n", " ", "\x00", "\x00\x00\x00", "=", "==", "\xef\xbb\xbf", "\x1a"}
+
 func genBytes(t *rapid.T) []byte {
+	b := genBytesPlain(t)
+	switch rapid.IntRange(0, 7).Draw(t, "magic") {
+	case 0:
+		b = append([]byte(rapid.SampledFrom(c18MagicPrefix).Draw(t, "magic-prefix")), b...)
+	case 1:
+		b = append(b, rapid.SampledFrom(c18MagicSuffix).Draw(t, "magic-suffix")...)
+	case 2:
+		b = []byte(rapid.SampledFrom(c18MagicPrefix).Draw(t, "magic-only")) // nothing but the mark
+	}
+	return b
+}
+
+func genBytesPlain(t *rapid.T) []byte {
 	switch rapid.IntRange(0, 7).Draw(t, "bytekind") {
 	case 6:
 		// natural-language-like text over a small alphabet, a few hundred bytes: the DEFLATE stream of such input is a
